@@ -114,6 +114,17 @@ Theorem C16_constant_vector_sigma n c (K : 'M[F]_n) (y : 'M[F]_(n, c)) (mu j s :
   FullCond_init_LN_sV_cN_yF_uF_weights K y mu (const_mx s) j = FullCond_init_LN_sS_cN_yF_uF_weights K y mu s j.
 Proof. by move=> sK pK j0; apply: constant_vector_sigma. Qed.
 
+(* requesting predictive uncertainty never changes the weights (hence the prediction): the noise
+   factor built for W must not leak into the factor the weights are solved with *)
+Theorem C16_uncertainty_flag_keeps_weights n m c k (K : 'M[F]_n) (Kuf : 'M[F]_(m, n)) (Kuu : 'M[F]_m)
+    (y : 'M[F]_(n, c)) (z : 'M[F]_(m, c)) (Yf : 'M[F]_(n, k)) (mu j s : F) (sv : 'cV[F]_n) (svm : 'cV[F]_m) (n_obs : nat) :
+  [/\ FullCond_init_LN_sS_cN_yT_uT_weights K y mu s j = FullCond_init_LN_sS_cN_yT_uF_weights K y mu s j,
+      FullCond_init_LN_sS_cN_yF_uT_weights K y mu s j = FullCond_init_LN_sS_cN_yF_uF_weights K y mu s j,
+      FullCond_init_LN_sV_cN_yF_uT_weights K y mu sv j = FullCond_init_LN_sV_cN_yF_uF_weights K y mu sv j,
+      LandmarksCond_init_sS_cM_yT_uT_weights Kuf Kuu y mu s j Yf = LandmarksCond_init_sS_cN_yT_uF_weights Kuf Kuu y mu s j
+    & LandmarksCholCond_init_LN_sS_yT_uT_weights Kuu z mu n_obs s j = LandmarksCholCond_init_LN_sS_yT_uF_weights Kuu z mu n_obs s j].
+Proof. by split. Qed.
+
 End C16.
 
 Print Assumptions C16_weights_linear_full.
@@ -125,3 +136,4 @@ Print Assumptions C16_readout_columns.
 Print Assumptions C16_interpolation.
 Print Assumptions C16_interpolation_dtc.
 Print Assumptions C16_constant_vector_sigma.
+Print Assumptions C16_uncertainty_flag_keeps_weights.
